@@ -1,10 +1,19 @@
 from vlib.core import *
 
 META = dict(
-    level_text="Exact-arithmetic / discrete content proved for all sizes and inputs: (c02_residual) a pair handed back satisfies A x - theta x = y_last f for complex theta, y over the real Arnoldi relation, so the flag test of num_converged bounds its norm; (c02_unit) ||x|| = ||y|| when V'V = I; (c02_realshift) lambda = sigma + 1/nu inverts nu = 1/(lambda - sigma), the residual identity of the shifted operator, and for EVERY kernel record every value returned by eigenvalues() after sort_ritzpair is a back-transformed Ritz value (never a value of the transformed spectrum), instantiated for the executable general-solver kernel; (c02_quadratic) nu = (1/(lambda-sigma) + 1/(lambda-conj sigma))/2 iff lambda is a root of the code's quadratic, whose two roots are exactly root_part1 +- root_part2; boundary lemmas behind F14 (a real nu with negative discriminant has both roots lambda, conj lambda for the SAME nu); (c02_pairs) the conjugate-pair loop of GenEigsComplexShiftSolver::sort_ritzpair, whose pair test is made on the transformed Ritz value nu (repair of F14), writes every slot exactly once and, PROVIDED complex Ritz values are adjacent exact conjugates (P1), overwrites with conj(lambda) only the slot that held conj(nu); every slot ends with its own eigenvalue when the root selection commutes with conjugation (c02_pairs_own; the quadratic does: c02_quadratic_conj); no hypothesis on the selected roots is left (the former P2), the former P2 counter-model is now an example of the repaired behaviour; machine-checked counter-model without P1; (c02_restart_schedule) under P1 the single/double-shift loop of GenEigsBase::restart applies every unwanted Ritz value exactly once; unconditionally (c02_restart_reads_in_range, the loop as repaired by c0124c3) it reads only indices < ncv, consumes every unwanted slot once and leaves m_k = k; without P1 exactly the unpaired complex values are applied as real shifts (c02_restart_unpaired). The SAME definitions (Model/GenSolver.lean: an Orch.Kern built from the Arnoldi, UpperHessenbergQR, DoubleShiftQR, UpperHessenbergEigen models and the source-translated nev_adjusted / is_complex / is_conj / sort keys / SimpleRandom) are run at Float against the real GenEigsSolver, GenEigsRealShiftSolver and GenEigsComplexShiftSolver on histories of at most four init/compute calls: return value, status, counters, eigenvalues, probe shift and a hash of the whole factorization object agree bit for bit, eigenvectors up to the final matrix-matrix product. The property's own predicate (residual with stated constants and exact back-transformation factors, unit norm, lambda in the spectrum of A by Bauer-Fike against a long-double dense reference, no duplicated simple eigenvalue, operator left at the user's shift) is evaluated on every pair handed back over the ten matrix classes of the quantifier.",
+    level_text="Exact-arithmetic / discrete content proved for all sizes and inputs: (c02_residual) a pair handed back satisfies A x - theta x = y_last f for complex theta, y over the real Arnoldi relation, so the flag test of num_converged bounds its norm; (c02_unit) ||x|| = ||y|| when V'V = I; (c02_realshift) lambda = sigma + 1/nu inverts nu = 1/(lambda - sigma), the residual identity of the shifted operator, and for EVERY kernel record every value returned by eigenvalues() after sort_ritzpair is a back-transformed Ritz value (never a value of the transformed spectrum), instantiated for the executable general-solver kernel; (c02_quadratic) nu = (1/(lambda-sigma) + 1/(lambda-conj sigma))/2 iff lambda is a root of the code's quadratic, whose two roots are exactly the code's candidates root1 = root_part1 + root_part2 and root2 = sigmar + 2 sigmai^2 nu / (1 + sqrt_disc) (= root_part1 - root_part2 over a field, c02_quadratic_root2; the repair 0117f45 of the cancellation at nu ~ 0), and for nu = 0 (eigenvalue AT Re sigma) root2 is Re sigma exactly, the unique solution (c02_quadratic_nu_zero); boundary lemmas behind F14 (a real nu with negative discriminant has both roots lambda, conj lambda for the SAME nu); (c02_pairs) the conjugate-pair loop of GenEigsComplexShiftSolver::sort_ritzpair, whose pair test is made on the transformed Ritz value nu (repair of F14), writes every slot exactly once and, PROVIDED complex Ritz values are adjacent exact conjugates (P1), overwrites with conj(lambda) only the slot that held conj(nu); every slot ends with its own eigenvalue when the root selection commutes with conjugation (c02_pairs_own; the quadratic does: c02_quadratic_conj); no hypothesis on the selected roots is left (the former P2), the former P2 counter-model is now an example of the repaired behaviour; machine-checked counter-model without P1; (c02_restart_schedule) under P1 the single/double-shift loop of GenEigsBase::restart applies every unwanted Ritz value exactly once; unconditionally (c02_restart_reads_in_range, the loop as repaired by c0124c3) it reads only indices < ncv, consumes every unwanted slot once and leaves m_k = k; without P1 exactly the unpaired complex values are applied as real shifts (c02_restart_unpaired). The SAME definitions (Model/GenSolver.lean: an Orch.Kern built from the Arnoldi, UpperHessenbergQR, DoubleShiftQR, UpperHessenbergEigen models and the source-translated nev_adjusted / is_complex / is_conj / sort keys / SimpleRandom) are run at Float against the real GenEigsSolver, GenEigsRealShiftSolver and GenEigsComplexShiftSolver on histories of at most four init/compute calls: return value, status, counters, eigenvalues, probe shift and a hash of the whole factorization object agree bit for bit, eigenvectors up to the final matrix-matrix product. The property's own predicate (residual with stated constants and exact back-transformation factors, unit norm, lambda in the spectrum of A by Bauer-Fike against a long-double dense reference, no duplicated simple eigenvalue, operator left at the user's shift) is evaluated on every pair handed back over the ten matrix classes of the quantifier.",
     note="Lean kernel + propext/Classical.choice/Quot.sound; translator; rounding and convergence are NOT proved (residual clause 'plus a rounding-level multiple of ||A||', convergence of the restarted iteration, correctness of the root selection by probing: oracle only); P1 (conjugate Ritz values adjacent after sorting) is a hypothesis: it holds for the Ritz values of UpperHessenbergEigen by c09_conj_compute before sorting, and std::sort keeps pairs adjacent only without key ties (F9); std::sort modelled as stable insertion sort (exact up to 16 elements: correspondence cases have ncv <= 16); libstdc++/libgcc/glibc complex arithmetic (operator/, sqrt, hypot) re-implemented in the model and pinned by the ckern stream; float/long double: scalar-generic theorems and the double oracle only",
     technique="Lean 4 proof (matrix algebra over a field with an embedded real subfield; induction over the pair loop and the shift loop, all comparisons arbitrary) + bit-exact differential correspondence of the executable instance through Orch.compute + long-double oracle against a dense reference",
     design="§5 C02", harnesses=['c02'])
+
+def _canon_nan(line):
+    def tok(t):
+        u = t[2:] if t.startswith('e:') else t
+        if len(u) >= 19 and u.isdigit():
+            v = int(u)
+            if v < (1 << 64) and ((v >> 52) & 0x7ff) == 0x7ff and (v & ((1 << 52) - 1)): return t[:len(t) - len(u)] + 'nan'
+        return t
+    return ' '.join(tok(t) for t in line.split(' '))
 
 def compare_c02(req_file, impl_file, model_file, soft_ulps=0, float_fields=None, maxreport=5, rel_tol=1e-13):
     """compare_segments with one change: the soft rule of the `rows=` segment (eigenvectors = V * Y, a matrix-matrix product whose summation
@@ -17,6 +26,10 @@ def compare_c02(req_file, impl_file, model_file, soft_ulps=0, float_fields=None,
             res['total'] += 1
             a = a.rstrip('\n'); b = b.rstrip('\n')
             if a == b: res['equal'] += 1; continue
+            # NaN is NaN: sign and payload of a NaN are not part of the result (x86 produces the negative quiet NaN for inf - inf, the model the positive one); seen
+            # for the eigenvalue at Re sigma whose transformed Ritz value is exactly 0 (finding C02-resigma-cancellation)
+            a = _canon_nan(a); b = _canon_nan(b)
+            if a == b: res['equal'] += 1; res['nan_canonicalised'] = res.get('nan_canonicalised', 0) + 1; continue
             sa = a.split(' | '); sb = b.split(' | '); ok = len(sa) == len(sb)
             if ok:
                 for x, y in zip(sa, sb):
@@ -44,7 +57,7 @@ def run(tier, seed, replay=None):
         'std::sort = stable insertion sort for at most 16 elements (libstdc++)',
         'the complex-shift operator is an explicit matrix Re[(A - sigma I)^-1] computed by the harness in long double for every shift the solver installs',
         'dense reference: Eigen::EigenSolver<long double>']
-    R.assumptions = ['compute() is called after at least one init()', 'A - sigma I nonsingular with |lambda - sigma| >= 0.03 spectral radius for the shift solvers (shift-and-invert domain)',
+    R.assumptions = ['compute() is called after at least one init()', 'A - sigma I nonsingular with |lambda - sigma| >= 0.03 spectral radius for the shift solvers (shift-and-invert domain; streams 2/3: |lambda - sigma| >= 0.1, Re sigma MAY be an exact eigenvalue)',
                      'c02_pairs / c02_restart_schedule assume P1 (adjacent exact conjugates: UpperHessenbergEigen convention, kept by std::sort only without key ties above 16 elements); the former hypothesis P2 is gone with the repair of F14 (pair test on nu); P1 failed with an out-of-range read until /repo commit c0124c3 (F9)']
     if replay:
         exe, log = build_harness('c02')
@@ -65,15 +78,25 @@ def run(tier, seed, replay=None):
         R.cov['rule'] = ('histories init[(v)] compute [compute [compute]] | init compute init compute (at most 4 calls) on GenEigsSolver / GenEigsRealShiftSolver / '
                          'GenEigsComplexShiftSolver x 10 matrix classes (dense, normal, skew, orthogonal, permutation, triangular, companion, rank-1, block-diagonal, few distinct '
                          'eigenvalues incl. repeated complex pairs) x scales {1, 1e-3, 1e3}, n <= 14 (22 thorough), all six selection/sorting rules, tol in {1e-3..4.5e-16}, '
-                         'maxit in {0..60} (300 thorough); targeted stream: complex shift with |lambda - Re sigma| = |Im sigma| for a real eigenvalue; ckern stream: '
+                         'maxit in {0..60} (300 thorough); targeted stream 1: complex shift with |lambda - Re sigma| = |Im sigma| for a real eigenvalue; stream 2 (GenEigsComplexShiftSolver): decoupled / block-diagonal '
+                         'real matrices (1x1, 2x2 rotation-scaling, dense 3x3/4x4 blocks) with the blocks of the eigenvalues nearest to sigma placed so that the wanted eigenvectors vanish in the first nev '
+                         'coordinates (decoupled-away, -perm: behind a permutation similarity that keeps the zeros), inside them (control) or anywhere (mixed); stream 3: upper triangular / diagonal + banded '
+                         'strictly upper / block upper triangular / permuted matrices with exactly prescribed eigenvalues (multiples of 1/4) and sigma = (an exact real eigenvalue) + i tau, tau in {0.1 .. 2}, '
+                         'or Re sigma = the real part of a 2x2 diagonal block; ckern stream: '
                          'std::sqrt(complex), the two roots, 1/nu + sigma, probe shift; every history is one request line (distinct lines counted)')
         R.cov['oracle'] = ('for every pair handed back (long double): ||A x - lambda x|| <= amp * (10 tol max(|nu|, eps^(2/3)) + 2000 n eps ||Op||_F) with amp = 1, nu = lambda (plain); '
                            'amp = |lambda - sigma| ||A - sigma I||_F, nu = 1/(lambda - sigma) (real shift); amp = ||(A - lambda\' I)^-1 ((A - Re sigma)^2 + Im sigma^2)||_F / |nu| (complex shift, '
                            'lambda\' the other root; skipped when infinite); | ||x|| - 1 | <= 1000 n eps (1 + restarts of this compute()); distance to the nearest reference eigenvalue <= 2 cond(X_ref) (bound + 100 n eps ||A||) '
-                           'when cond(X_ref) < 1e8; two returned values within 1e-3 gap of one simple reference eigenvalue (gap > 1e-6 ||A||) = duplicate; operator shift restored; complex shift with infinite factor: the returned value must not be >= 1e-3 (||A||+|sigma|) from the spectrum while the other root is an eigenvalue (wrong-root); '
+                           'when cond(X_ref) < 1e8; complex shift, finite factor, orthonormal basis, cond(X_ref) < 1e8: a returned value at distance >= max(1e-3, 1000 tol) (||A||+|sigma|) from the spectrum whose mirror image '
+                           'Re sigma + Im sigma^2 / (lambda - Re sigma) is an eigenvalue to 1e-7 (||A||+|sigma|) = wrong-root; two returned values within 1e-3 gap of one simple reference eigenvalue (gap > 1e-6 ||A||) = duplicate; operator shift restored; complex shift with infinite factor: the returned value must not be >= 1e-3 (||A||+|sigma|) from the spectrum while the other root is an eigenvalue (wrong-root); '
                            'num_operations() = counted applications; no Eigen assertion')
         tags = {'successful': 'oracle_successful', 'partial': 'oracle_partial', 'none converged': 'oracle_none', 'complex-shift probes': 'probe_solves',
-                'F14 configuration': 'cfg_dist-eq-imsigma'}
+                'F14 configuration': 'cfg_dist-eq-imsigma', 'decoupled, wanted eigenvectors away from the first nev coordinates': 'cfg_decoupled-away',
+                'decoupled away behind a permutation': 'cfg_decoupled-away-perm', 'decoupled, wanted eigenvectors inside (control)': 'cfg_decoupled-inside', 'decoupled mixed': 'cfg_decoupled-mixed',
+                'Re sigma exact eigenvalue: triangular': 'cfg_exact-resigma-tri', 'Re sigma exact eigenvalue: diagonal + banded upper': 'cfg_exact-resigma-banded',
+                'Re sigma exact eigenvalue: block triangular': 'cfg_exact-resigma-blocktri', 'Re sigma exact eigenvalue: permuted': 'cfg_exact-resigma-perm',
+                'Re sigma = real part of a 2x2 block': 'cfg_exact-resigma-blockre', 'mirror-root predicate evaluated': 'oracle_mirror_checked', 'pair at Re sigma handed back (nu = 0)': 'oracle_pairs_at_resigma'}
+        R.cov['structured_shares'] = {k: v for k, v in hc.items() if k.startswith(('cfg_', 'stream_', 'structured_', 'oracle_mirror', 'oracle_pairs_at'))}
         R.cov['model_branches_reached'] = sorted(k for k, v in tags.items() if hc.get(v, 0) > 0)
         R.cov['model_branches_uncovered'] = sorted(k for k, v in tags.items() if hc.get(v, 0) == 0)
         R.cov['exhaustive'] = False
